@@ -111,25 +111,21 @@ def _canon(x, depth=0):
         if x.dtype.kind == 'O':
             return ['oarr', list(x.shape), _canon(x.tolist(), depth + 1)]
         if x.dtype.kind in 'fc':
-            b = np.round(np.asarray(x, dtype=np.float64), 10) + 0.0
-            with np.errstate(all='ignore'):
-                b = np.where(np.isfinite(b), np.asarray([_round_sig(v, 11) if np.isfinite(v) else v for v in b.ravel()]).reshape(b.shape), b)
-        else:
-            b = np.asarray(x, dtype=np.int64)
-        return ['arr', list(x.shape), x.dtype.kind, hashlib.sha1(np.ascontiguousarray(b).tobytes()).hexdigest()[:16]]
+            return ['arr', list(x.shape), 'f', [float(v) for v in np.asarray(x, dtype=np.float64).ravel()]]
+        return ['arr', list(x.shape), 'i', [float(v) for v in np.asarray(x, dtype=np.int64).ravel()]]
     if isinstance(x, pd.DataFrame):
         return ['df', _canon(list(x.index), depth + 1), _canon(list(x.columns), depth + 1), _canon(x.to_numpy(dtype=float), depth + 1)]
     if isinstance(x, pd.Series):
         return ['ser', _canon(list(x.index), depth + 1), _canon(list(x.values), depth + 1)]
     if isinstance(x, nx.Graph):
-        nodes = sorted(([_canon(n, depth + 1), _canon(dict(d), depth + 1)] for n, d in x.nodes(data=True)), key=lambda v: json.dumps(v, sort_keys=True))
-        edges = sorted(([_canon(a, depth + 1), _canon(b, depth + 1), _canon(dict(d), depth + 1)] for a, b, d in x.edges(data=True)), key=lambda v: json.dumps(v, sort_keys=True))
+        nodes = sorted(([_canon(n, depth + 1), _canon(dict(d), depth + 1)] for n, d in x.nodes(data=True)), key=lambda v: json.dumps(v[0], sort_keys=True))
+        edges = sorted(([_canon(a, depth + 1), _canon(b, depth + 1), _canon(dict(d), depth + 1)] for a, b, d in x.edges(data=True)), key=lambda v: json.dumps(v[:2], sort_keys=True))
         return ['graph', type(x).__name__, nodes, edges]
     if isinstance(x, Collective):
         return ['coll', _canon(x.n_solo_jumps, depth + 1), _canon(x.n_coll_jumps, depth + 1), _canon(x.coll_jumps, depth + 1),
                 _canon([[a, b] for a, b in x.collective], depth + 1), _canon(x.max_dist, depth + 1), _canon(x.max_steps, depth + 1)]
     if isinstance(x, dict):  # incl. Counter
-        return ['dict', sorted(([_canon(k, depth + 1), _canon(v, depth + 1)] for k, v in x.items()), key=lambda v: json.dumps(v, sort_keys=True))]
+        return ['dict', sorted(([_canon(k, depth + 1), _canon(v, depth + 1)] for k, v in x.items()), key=lambda v: json.dumps(v[0], sort_keys=True))]
     if isinstance(x, (list, tuple)):
         return [_canon(v, depth + 1) for v in x]
     if isinstance(x, (set, frozenset)):
@@ -142,19 +138,62 @@ def _f(v: float):
         return 'nan'
     if v in (float('inf'), float('-inf')):
         return 'inf' if v > 0 else '-inf'
-    return _round_sig(v, 12)
+    return float(v)  # raw: values are compared with a tolerance (approx_eq), never by hash
 
 
-def fingerprint(kind: str, method: str, value) -> str:
-    """Order-insensitive where the code's own order comes from set iteration."""
+def approx_eq(a, b, rtol=1e-8, atol=1e-300) -> bool:
+    """Structural equality of two canonical values with a relative tolerance on floats.
+
+    The analysis objects of one world share their trajectory, whose representation is flipped in place by
+    the computations themselves (C15's hidden state), so a recomputation may differ in the last bits."""
+    if isinstance(a, float) and isinstance(b, (float, int)) or isinstance(b, float) and isinstance(a, (float, int)):
+        a, b = float(a), float(b)
+        return abs(a - b) <= atol + rtol * max(abs(a), abs(b))
+    if type(a) is not type(b):
+        return False
+    if isinstance(a, list):
+        if len(a) != len(b):
+            return False
+        if len(a) == 4 and a[0] == 'arr' and b[0] == 'arr':
+            if a[1] != b[1] or a[2] != b[2]:
+                return False
+            x, y = np.asarray(a[3], dtype=float), np.asarray(b[3], dtype=float)
+            scale = float(np.nanmax(np.abs(x))) if x.size and np.isfinite(x).any() else 0.0
+            return bool(np.allclose(x, y, rtol=rtol, atol=1e-9 * scale, equal_nan=True))
+        return all(approx_eq(u, v, rtol, atol) for u, v in zip(a, b))
+    return a == b
+
+
+def coarse_hash(value) -> str:
+    """Hash for the event log / digest: floats rounded to 6 significant digits."""
+    def r(v):
+        if isinstance(v, float):
+            return _round_sig(v, 6) if v == v and abs(v) != float('inf') else str(v)
+        if isinstance(v, list):
+            if len(v) == 4 and v[0] == 'arr':
+                return ['arr', v[1], v[2], [r(float(t)) for t in v[3]]]
+            return [r(t) for t in v]
+        return v
+    return hashlib.sha1(json.dumps(r(value), sort_keys=True, default=str).encode()).hexdigest()[:16]
+
+
+def fingerprint(kind: str, method: str, value):
+    """Canonical value (nested lists). Order-insensitive where the code's own order comes from set iteration."""
     if kind == 'collective' and method == 'site_pair_count_matrix_labels':
-        c = ['labels', sorted(_canon(v) for v in value)]
-    elif kind == 'collective' and method == 'site_pair_count_matrix':
+        return ['labels', sorted(_canon(v) for v in value)]
+    if kind == 'collective' and method == 'site_pair_count_matrix':
         m = np.asarray(value)
-        c = ['spcm', list(m.shape), int(m.sum()), sorted(int(v) for v in m.ravel() if v)]
-    else:
-        c = _canon(value)
-    return hashlib.sha1(json.dumps(c, sort_keys=True, default=str).encode()).hexdigest()[:20]
+        return ['spcm', list(m.shape), int(m.sum()), sorted(int(v) for v in m.ravel() if v)]
+    return _canon(value)
+
+
+def same(t1, t2) -> bool:
+    """Compare two outcomes ('ok', value) | ('exc', name)."""
+    if t1[0] != t2[0]:
+        return False
+    if t1[0] == 'exc':
+        return t1[1] == t2[1]
+    return approx_eq(t1[1], t2[1])
 
 
 # ---------------------------------------------------------------------------
@@ -625,9 +664,9 @@ class Run:
         self.stats.state(e.kind, method, ai, rel, min(len(e.holders), 2))
         exp = self.expected(e.recipe, e.kind, mi, ai)
         self.oracle_checks += 1
-        self.trace.log(ev='QUERY', step=self.step, name=e.name, method=method, a=ai, got=list(got))  # rel depends on the allocator: stats only
+        self.trace.log(ev='QUERY', step=self.step, name=e.name, method=method, a=ai, got=[got[0], coarse_hash(got[1]) if got[0] == 'ok' else got[1]])  # rel depends on the allocator: stats only
         sig = {'kind': e.kind, 'method': method}
-        if got != exp:
+        if not same(got, exp):
             if got[0] == 'exc' and exp[0] == 'ok':
                 self.violation('wrapper_raised', f'{e.kind}.{method}{variants[ai]} on a live object raised {got[1]}; the uncached method returns normally', sig)
             if got[0] == 'ok' and exp[0] == 'exc':
@@ -637,12 +676,12 @@ class Run:
             # whose value is it?
             owner = None
             for (recipe, m2, a2), t in self.truth.items():
-                if t == got and recipe[0] == e.kind and m2 == mi and recipe != e.recipe:
+                if same(t, got) and recipe[0] == e.kind and m2 == mi and recipe != e.recipe:
                     owner = recipe
                     break
             if owner is None:
                 for (recipe, m2, a2), t in self.truth.items():
-                    if t == got and recipe == e.recipe and m2 == mi and a2 != ai:
+                    if same(t, got) and recipe == e.recipe and m2 == mi and a2 != ai:
                         self.violation('wrong_arguments_value', f'{e.kind}.{method}{variants[ai]} returned the value belonging to arguments {METHODS[e.kind][mi][1][a2]}', sig)
             if owner is not None:
                 self.violation(
@@ -653,7 +692,7 @@ class Run:
             self.violation('stale_or_wrong_value', f'{e.kind}.{method}{variants[ai]} on object {e.name} (recipe {e.recipe}) differs from the uncached recomputation; relation: {rel}', sig)
         # cached answers do not drift
         prev = self.first_fp.setdefault(akey, got)
-        if prev != got:
+        if not same(prev, got):
             self.violation('value_drift', f'{e.kind}.{method}{variants[ai]} on the same object returned two different values', sig)
 
     def op_drop(self, op):
